@@ -9,8 +9,11 @@ Abstractions (tied by the correspondence run, see go/overlay/.../zz_verif_c11_te
     than MP_REACH_NLRI) together with its encoded length (what the packers add up with Len());
   * next hop(s) carried in MP_REACH_NLRI: opaque key + encoded length `len` (as Serialize writes
     it) + `clen`, the length NewPathAttributeMpReachNLRI declares (they differ for VPNv6 with a
-    link-local next hop); `none` = next hop is the NEXT_HOP attribute, i.e. inside the attribute
-    bytes (IPv4 unicast with IPv4 next hop);
+    link-local next hop) + `v4` (the next hop is an IPv4 address); `none` = next hop is the
+    NEXT_HOP attribute, i.e. inside the attribute bytes. IPv4 unicast with `some h`, `h.v4`: IPv4
+    next hop carried in MP_REACH_NLRI without NEXT_HOP attribute (RFC 4760) — packerV4 cages it on
+    all attribute bytes including the path's MP_REACH_NLRI (`Path.grp` = identity of those bytes)
+    and synthesises NEXT_HOP; `h.v4 = false`: RFC 5549;
   * a prefix is (bit length, identity); families: 0 = IPv4 unicast (packerV4), 1 = IPv6 unicast,
     2 = VPNv4, 3 = VPNv6 (one label), any other number = another packerMP family without extra
     NLRI octets.
@@ -40,6 +43,10 @@ structure NH where
   key : Nat
   len : Nat
   clen : Nat
+  /-- the (first) next hop is an IPv4 address (`path.GetNexthop().Is4()`): for IPv4 unicast this is
+      the RFC 4760 case "IPv4 next hop in MP_REACH_NLRI, no NEXT_HOP attribute", handled by the
+      cages of packerV4; `false` is the RFC 5549 case (packerV4.mpPaths) -/
+  v4 : Bool
 deriving DecidableEq, Repr
 
 structure Route where
@@ -65,6 +72,10 @@ deriving DecidableEq, Repr
 structure Path where
   c : Change
   hash : Nat
+  /-- identity of the serialised bytes of the path's own MP_REACH_NLRI attribute (0 = none). They are
+      part of packerV4's cage bytes (all attributes), so the next hop they contain is part of the
+      grouping key; routes of one received UPDATE share them. -/
+  grp : Nat
 deriving DecidableEq, Repr
 
 inductive Item where
@@ -75,7 +86,7 @@ deriving DecidableEq, Repr
 /-- an UPDATE message as emitted by the packers -/
 inductive Msg where
   | wd4 (ns : List Nlri)                                  -- WithdrawnRoutes only
-  | ann4 (a : Attrs) (ns : List Nlri)                     -- attributes + NLRI
+  | ann4 (a : Attrs) (nh : Option NH) (ns : List Nlri)    -- attributes (+ synthesised NEXT_HOP) + NLRI
   | unreach (f : Nat) (ns : List Nlri)                    -- MP_UNREACH_NLRI only
   | reach (f : Nat) (a : Attrs) (nh : Option NH) (ns : List Nlri)  -- attributes + MP_REACH_NLRI
   | eor (f : Nat)
@@ -105,10 +116,16 @@ def nhCLen : Option NH → Nat
   | none => 0
   | some h => h.clen
 
+/-- packerV4.pack: when the path has no NEXT_HOP attribute one is synthesised from
+    `paths[0].GetNexthop()` and appended (flags, type, length, 4 octets) -/
+def synthNH : Option NH → Nat
+  | none => 0
+  | some _ => 7
+
 /-- serialised length of the whole message (19-octet header included) -/
 def size (o : Opts) : Msg → Nat
   | .wd4 ns => 23 + sumLen o 0 ns
-  | .ann4 a ns => 23 + a.len + sumLen o 0 ns
+  | .ann4 a nh ns => 23 + a.len + synthNH nh + sumLen o 0 ns
   | .unreach f ns => 23 + hdr (3 + sumLen o f ns) + 3 + sumLen o f ns
   | .reach f a nh ns => 23 + a.len + hdr (5 + nhLen nh + sumLen o f ns) + 5 + nhLen nh + sumLen o f ns
   | .eor f => if f = 0 then 23 else 29
@@ -172,7 +189,14 @@ structure Ann where
   n : Nlri
   r : Route
   hash : Nat
+  grp : Nat
 deriving DecidableEq, Repr
+
+/-- `path.GetNexthop().Is4()` for an IPv4-unicast announcement: NEXT_HOP attribute, or an IPv4
+    next hop in MP_REACH_NLRI -/
+def nhIs4 : Option NH → Bool
+  | none => true
+  | some h => h.v4
 
 def wdOf (p : Path) : Option Nlri :=
   match p.c.act with
@@ -182,7 +206,7 @@ def wdOf (p : Path) : Option Nlri :=
 def annOf (p : Path) : Option Ann :=
   match p.c.act with
   | none => none
-  | some r => some ⟨p.c.n, r, p.hash⟩
+  | some r => some ⟨p.c.n, r, p.hash, p.grp⟩
 
 def eorMsg (f : Nat) (e : Bool) : List Msg := if e then [Msg.eor f] else []
 
@@ -190,11 +214,12 @@ def eorMsg (f : Nat) (e : Bool) : List Msg := if e then [Msg.eor f] else []
 def packV4 (o : Opts) (ps : List Path) (e : Bool) : List Msg :=
   let wds := ps.filterMap wdOf
   let anns := ps.filterMap annOf
-  let caged := anns.filter (fun a => a.r.nh.isNone)     -- path.GetNexthop().Is4()
-  let mps := anns.filter (fun a => !a.r.nh.isNone)      -- RFC 5549: p.mpPaths
+  let caged := anns.filter (fun a => nhIs4 a.r.nh)      -- path.GetNexthop().Is4()
+  let mps := anns.filter (fun a => !nhIs4 a.r.nh)       -- RFC 5549: p.mpPaths
   (chunkN (maxN o 0) wds.length wds).map Msg.wd4
-  ++ (groupBy (fun a : Ann => (a.hash, a.r.attrs)) caged.length caged).flatMap (fun g =>
-        (chunkN (maxN o g.1.2.len) g.2.length (g.2.map (·.n))).map (Msg.ann4 g.1.2))
+  ++ (groupBy (fun a : Ann => (a.hash, a.r.attrs, a.r.nh, a.grp)) caged.length caged).flatMap (fun g =>
+        (chunkN (maxN o (g.1.2.1.len + synthNH g.1.2.2.1)) g.2.length (g.2.map (·.n))).map
+          (Msg.ann4 g.1.2.1 g.1.2.2.1))
   ++ mps.map (fun a => Msg.reach 0 a.r.attrs a.r.nh [a.n])
   ++ eorMsg 0 e
 
@@ -264,7 +289,7 @@ def dropped (o : Opts) (is : List Item) : List Msg := (pack o is).filter (fun m 
 /-- the route changes an UPDATE carries, in processing order -/
 def flat : Msg → List Change
   | .wd4 ns => ns.map (fun n => ⟨0, n, none⟩)
-  | .ann4 a ns => ns.map (fun n => ⟨0, n, some ⟨a, none⟩⟩)
+  | .ann4 a nh ns => ns.map (fun n => ⟨0, n, some ⟨a, nh⟩⟩)
   | .unreach f ns => ns.map (fun n => ⟨f, n, none⟩)
   | .reach f a nh ns => ns.map (fun n => ⟨f, n, some ⟨a, nh⟩⟩)
   | .eor _ => []
@@ -287,8 +312,8 @@ def changes (is : List Item) : List Change := is.filterMap (fun i => (pathOf i).
 def aloneMsg (c : Change) : Msg :=
   match c.act with
   | none => if c.fam = 0 then .wd4 [c.n] else .unreach c.fam [c.n]
-  | some ⟨a, none⟩ => if c.fam = 0 then .ann4 a [c.n] else .reach c.fam a none [c.n]
-  | some ⟨a, some h⟩ => .reach c.fam a (some h) [c.n]
+  | some ⟨a, nh⟩ =>
+    if c.fam = 0 ∧ nhIs4 nh = true then .ann4 a nh [c.n] else .reach c.fam a nh [c.n]
 
 /-- the single-route encoding of the change fits the session's limit -/
 def fitsAlone (o : Opts) (c : Change) : Bool := fits o (aloneMsg c)
